@@ -1,0 +1,33 @@
+// Copyright 2026 SCION Association
+//
+// Licensed under the Apache License, Version 2.0 (the "License");
+// you may not use this file except in compliance with the License.
+// You may obtain a copy of the License at
+//
+//   http://www.apache.org/licenses/LICENSE-2.0
+//
+// Unless required by applicable law or agreed to in writing, software
+// distributed under the License is distributed on an "AS IS" BASIS,
+// WITHOUT WARRANTIES OR CONDITIONS OF ANY KIND, either express or implied.
+// See the License for the specific language governing permissions and
+// limitations under the License.
+
+//go:build verif
+
+package router
+
+// Thin exports for the external verification harness (/verif). No behaviour of its own.
+
+// VerifUnderlayFactory returns the registered constructor of the named underlay provider (nil if none),
+// so that the harness can register the same implementation under a second name (AddUnderlay) and
+// thereby reach the lazy provider instantiation in AddExternalInterface / AddNextHop.
+func VerifUnderlayFactory(name string) NewProviderFn { return underlayProviders[name] }
+
+// VerifUnderlayNames lists the underlay providers this data plane has instantiated.
+func (v *VerifDP) VerifUnderlayNames() []string {
+	var out []string
+	for n := range v.underlays {
+		out = append(out, n)
+	}
+	return out
+}
